@@ -1129,10 +1129,6 @@ async fn drain_restored(
         if a.prop == "C15" {
             continue;
         }
-        // known open findings of other properties are not re-reported here
-        if a.signature.contains("held back at rest behind a higher-priority multi-node task") {
-            continue;
-        }
         // a job whose last task outcome is durable but whose JobCompleted record was lost is
         // restored as terminated-but-not-reported; the statement of C10 does not cover the report
         if a.signature.contains("closed job with only terminal tasks was not reported completed")
